@@ -21,6 +21,7 @@ pub mod named {
     pub type Query = sv::QueryMsg<Digit>;
     pub type Sudo = sv::SudoMsg<u64>;
     pub type Inst = sv::InstantiateMsg;
+    pub type Migr = sv::MigrateMsg<u64>;
     pub type IfgExec = ifg::IfgExecMsg<u32>;
     pub type IfgQuery = ifg::IfgQueryMsg<Digit>;
 
@@ -32,6 +33,7 @@ pub mod named {
         same::<Query>(None, None::<<crate::G as ContractApi>::Query>);
         same::<Sudo>(None, None::<<crate::G as ContractApi>::Sudo>);
         same::<Inst>(None, None::<<crate::G as ContractApi>::Instantiate>);
+        same::<Migr>(None, None::<<crate::G as ContractApi>::Migrate>);
     }
 }
 
@@ -46,7 +48,7 @@ mod h {
     use crate::generic::gn::sv as tw;
     use crate::generic::gn::Gn;
     use crate::generic::{Digit, GLOG, N64};
-    use crate::named::{Exec, IfgExec, IfgQuery, Inst, Query, Sudo};
+    use crate::named::{Exec, IfgExec, IfgQuery, Inst, Migr, Query, Sudo};
     use crate::G;
     use support::call::any_in;
     use support::doc::{decode, num, Msg, Obj, E, EMPTY0};
@@ -59,7 +61,7 @@ mod h {
     fn ser_like_twin() {
         let x: u64 = kani::any();
         let sel: u8 = kani::any();
-        kani::assume(sel < 8);
+        kani::assume(sel < 9);
         let (g, t) = match sel {
             0 => (record(&Exec::Ga { a: N64(x) }), record(&tw::ExecMsg::Ga { a: N64(x) })),
             1 => (record(&Exec::Gb { b: Some(x as u32) }), record(&tw::ExecMsg::Gb { b: Some(x as u32) })),
@@ -68,6 +70,7 @@ mod h {
             4 => (record(&Query::Gr {}), record(&tw::QueryMsg::Gr {})),
             5 => (record(&Sudo::Gw { w: x }), record(&tw::SudoMsg::Gw { w: x })),
             6 => (record(&IfgExec::Ig { t: x as u32 }), record(&IfnExecMsg::Ig { t: x as u32 })),
+            7 => (record(&Migr { w: x }), record(&tw::MigrateMsg { w: x })),
             _ => (record(&Inst {}), record(&tw::InstantiateMsg {})),
         };
         match (&g, &t) {
